@@ -730,6 +730,25 @@ func genSpec(r *vh.Rng, name int64, nNodes int, malformed bool, pivots *[]int64)
 			s.args = a
 			*pivots = append(*pivots, pv...)
 		}
+		if malformed && r.Chance(1, 3) {
+			// the LEGACY way to an invalid chain: no policies, a legacy `arguments` map that the
+			// synthesized allocation-rate policy cannot be initialised with (next to valid scalars)
+			switch r.Intn(5) {
+			case 0:
+				s.args = []argT{{1, 0}, {2, 60000}} // maxCPUUtil: 60, written as a percentage
+			case 1:
+				s.args = []argT{{1, 20000}, {2, 80000}} // both as percentages
+			case 2:
+				s.args = []argT{{1, 800}, {2, 200}} // min > max
+			case 3:
+				s.args = []argT{{1, -100}, {2, 600}} // negative
+			default:
+				s.args, _ = genArgsAlloc(r, true)
+			}
+			if r.Chance(1, 2) {
+				s.args = append(s.args, argT{7, 1}) // plus a key nobody reads
+			}
+		}
 		if bad() {
 			switch r.Intn(4) {
 			case 0:
@@ -979,6 +998,17 @@ func gen(rng *vh.Rng, n int, emit func(id string, sel int, in []int64, kind stri
 			dup.nodes = append(dup.nodes, nodeT{name: i})
 			dup.metrics = append(dup.metrics, metricT{name: i, present: true, util: 100 * i})
 		}
+		// the same through the LEGACY fields (seed C17-r7-1): no policies; `second` has maxNodes 5 and a
+		// legacy arguments map with maxCPUUtil written as a percentage; 60 nodes
+		leg := &input{specs: []specT{
+			{name: 1, cpumax: 600, maxn: 10},
+			{name: 2, cpumax: 1000, maxn: 5, args: []argT{{1, 0}, {2, 60000}}},
+			{name: 3, cpumin: 700, cpumax: 1000, maxn: 4}}}
+		for i := int64(1); i <= 60; i++ {
+			leg.nodes = append(leg.nodes, nodeT{name: i})
+			leg.metrics = append(leg.metrics, metricT{name: i, present: true, util: 10 * (i % 90)})
+		}
+		cases = append(cases, genCase{id: "uninitialisable-legacy-arguments", kind: "malformed", sel: sel, in: leg})
 		cases = append(cases, genCase{id: "uninitialisable-chain", kind: "malformed", sel: sel, in: in},
 			genCase{id: "duplicate-scheduler-name", kind: "malformed", sel: sel, in: dup})
 	}
